@@ -137,6 +137,8 @@ inductive Action where
   | call (var : Nat)
   | getf (var : Nat)
   | bump (var : Nat)
+  /-- `echo(v.root)`: a static declared in C0 read through an instance -/
+  | readRoot (var : Nat)
   | g (arg : GArg)
   | churn (a n : Nat)
   | echoChurn (n : Nat)
@@ -194,6 +196,11 @@ def step (h : Hier) (s : St) : Action → St × List String
     match lookupVar s v with
     -- `bump()` is declared in C0: the unqualified static `made` is C0's slot
     | some _ => let made := addAt s.made 0 100; ({ s with made := made }, [toString (made.getD 0 0)])
+    | Option.none => (s, ["<no such variable>"])
+  | .readRoot v =>
+    match lookupVar s v with
+    -- the slot of the declaring class, whatever the receiver's declared or dynamic class
+    | some _ => (s, [toString (40 + (h.getD 0 default).field)])
     | Option.none => (s, ["<no such variable>"])
   | .g arg =>
     match pick (gCands h.length) [gArgTy arg] with
